@@ -85,7 +85,10 @@ def run(prop, path):
         import search_checks
         build_harness()
         d = fresh_dir('replay-%d' % os.getpid())
-        search_checks.write_cases(os.path.join(d, 'c.ndjson'), [{'id': 0, 'fen': sig['fen'], 'pre': sig.get('pre', []), 'depth': sig['depth']}])
+        case = {'id': 0, 'fen': sig['fen'], 'pre': sig.get('pre', []), 'depth': sig['depth']}
+        if sig.get('cut') is not None:
+            case['cut'] = sig['cut']
+        search_checks.write_cases(os.path.join(d, 'c.ndjson'), [case])
         f = os.path.join(d, 'm.ndjson')
         run_harness(['mate-facts', '--cases', os.path.join(d, 'c.ndjson'), '--out', f], timeout=3000)
         r = search_checks.validate_search(f, 'C12')
